@@ -23,6 +23,10 @@ struct Recorder {
     std::string fname = Mdl::cfgname();
     fname = fname.substr(0, fname.rfind('/'));  // without the constructor suffix
     Mdl::cfgname() = fname;
+    if (const char* pk = std::getenv("VF_PICK")) {  // "<seed>:<mod>": a pseudo-random 1/mod of the configurations
+      unsigned long sd = 0, mod = 1;
+      if (std::sscanf(pk, "%lu:%lu", &sd, &mod) == 2 && mod > 1 && (std::hash<std::string>()(fname) / 7 + sd) % mod != 0) return;
+    }
     std::string flat = fname;
     std::replace(flat.begin(), flat.end(), '/', '_');
     Trace tr(outdir + "/dense_" + flat + "_p" + std::to_string(dg().P) + ".ndjson");
